@@ -20,11 +20,13 @@
     (string b)))
 
 (def native-path (os/getenv "C10_NATIVE"))
-(def c10-resume (when (and native-path (not= native-path ""))
-                  (((native native-path) 'c10/resume) :value)))
+(def native-mod (when (and native-path (not= native-path "")) (native native-path)))
+(def c10-resume (when native-mod ((native-mod 'c10/resume) :value)))
+(def c10-fork (when native-mod ((native-mod 'c10/fork-call) :value)))
 (def trace (truthy? (os/getenv "C10_TRACE")))
 
 (setdyn :c10-resume c10-resume)
+(setdyn :c10-fork c10-fork)
 (setdyn :c10-trace trace)
 
 (defn item-bytes [item]
